@@ -3264,3 +3264,10 @@ def c20_empty_body_cases(seed, tier):
 
 for _p in ("C20", "C19", "C12"):
     _extend(_p, c20_empty_body_cases, "plus programs without any statement in every layout (and headers without a line break: rejected)")
+
+
+# the Display rendering of the bound test (impl Display for TestCase = the Gallina printer Show.show_prog, extracted) is part of
+# the comparison wherever whole programs are run: it shows the parse TREE (the printer parenthesises every binary operation)
+for _p in ("C01", "C08", "C12", "C18", "C19", "C20"):
+    if "PROG" not in PROPS[_p]["tags"]:
+        PROPS[_p]["tags"] = tuple(PROPS[_p]["tags"]) + ("PROG",)
